@@ -18,7 +18,9 @@ HEADLINE = ["graphs", "graphs_with_cycle", "expected_reject", "expected_accept",
 
 PATHS = [(), (0,), (1,), (0, 0), (0, 1)]
 MENU_CROSS = [(), ("plain",), ("shift",), ("weak",), ("async",), ("plain", "shift"), ("plain", "weak"), ("shift", "weak"),
-              ("shift", "async"), ("async", "shift"), ("weak", "async"), ("shift+async",)]
+              ("shift", "async"), ("async", "shift"), ("weak", "async"), ("shift+async",),
+              # the same parallel connections registered in the other order (min() over delays, overwrites)
+              ("shift", "plain"), ("weak", "plain"), ("weak", "shift"), ("async", "weak")]
 MENU_SELF = [(), ("shift",), ("weak",), ("plain",)]
 
 
